@@ -1376,7 +1376,8 @@ fn gen_opts(r: &mut Rng, focus: Focus) -> SimOpts {
         threshold: *r.pick(&w),
         accept_cap: r.range(1, 4) as usize,
         dgram_cap: if matches!(focus, Focus::C11) { *r.pick(&[1usize, 2, 3, 4, 4, 5, 6, 8]) } else { r.range(1, 4) as usize },
-        bind_cap: if matches!(focus, Focus::C15) || r.chance(1, 2) { r.range(1, 3) as usize } else { 0 },
+        // (C15: mostly endpoints that take binds; now and then one that refuses them all)
+        bind_cap: if if matches!(focus, Focus::C15) { r.chance(4, 5) } else { r.chance(1, 2) } { r.range(1, 3) as usize } else { 0 },
         max_retries: r.range(1, 3) as usize,
     }
 }
@@ -2436,6 +2437,25 @@ fn final_checks(w: &mut World) {
                 let msg = format!("open request {req} of {} (port {port}) resolved Ok (stream {}#{h}), but the application of {} was never handed a stream for it although it accepted until its accept queue was empty, the connection is up and nothing is in flight (accept queue capacity of {}: {})",
                     NAMES[oe], NAMES[oe], NAMES[1 - oe], NAMES[1 - oe], w.opts[1 - oe].accept_cap);
                 w.fail("C07", "open-ok-without-accept", msg);
+            }
+        }
+        // C15: every bind request resolves — with `false` at once when the peer takes no binds, with the peer
+        // application's decision once it has made one. Nothing is in flight any more: a request that is still
+        // unresolved although the peer refuses binds, or has decided this very request, was never answered.
+        for e in 0..2 {
+            let mut reqs: Vec<u64> = w.view[e].binds.iter().filter(|(_, c)| **c == 0).map(|(r, _)| *r).collect();
+            reqs.sort_unstable();
+            for req in reqs {
+                *w.mon.entry("bind-unresolved-at-quiescence/judged").or_insert(0) += 1;
+                let port = w.bind_ports.iter().find(|(_, v)| **v == (e, req)).map(|(p, _)| *p);
+                let decided = port.and_then(|p| w.bind_decision.get(&p).copied());
+                if w.opts[1 - e].bind_cap == 0 {
+                    let msg = format!("bind request {req} of {} is still unresolved at quiescence (both endpoints running, nothing in flight) although {} is not configured to accept binds: PROTOCOL.md has it answer every Bind with a Reset, so the request resolves `false`", NAMES[e], NAMES[1 - e]);
+                    w.fail("C15", "bind-unanswered", msg);
+                } else if let Some(d) = decided {
+                    let msg = format!("bind request {req} of {} is still unresolved at quiescence (both endpoints running, nothing in flight) although the application of {} has decided it ({})", NAMES[e], NAMES[1 - e], if d { "accepted" } else { "rejected / dropped" });
+                    w.fail("C15", "bind-unanswered", msg);
+                }
             }
         }
         // C06: after an abort the peer's reads return what had been delivered and then end-of-stream
